@@ -84,6 +84,31 @@ theorem devLife_map_stale (d : Nat) (l : Life) (L : List (Nat × Life)) :
     · have : ¬ d = a.1 := fun h' => h h'.symm
       simp only [h, ih, this, false_or, if_false]
 
+theorem devLife_filter_stale (d : Nat) (l : Life) (L : List (Nat × Life)) :
+    devLife d l ((L.filter fun x => x.2 == Life.birthed).map fun x => Eff.devStale x.1) =
+      if (d, Life.birthed) ∈ L then .stale else l := by
+  induction L generalizing l with
+  | nil => rfl
+  | cons a t ih =>
+    obtain ⟨d', l'⟩ := a
+    cases l' with
+    | stale =>
+      have : (List.filter (fun x : Nat × Life => x.2 == Life.birthed) ((d', Life.stale) :: t))
+          = List.filter (fun x : Nat × Life => x.2 == Life.birthed) t := by
+        rw [List.filter_cons]; simp
+      rw [this, ih]
+      simp
+    | birthed =>
+      have : (List.filter (fun x : Nat × Life => x.2 == Life.birthed) ((d', Life.birthed) :: t))
+          = (d', Life.birthed) :: List.filter (fun x : Nat × Life => x.2 == Life.birthed) t := by
+        rw [List.filter_cons]; simp
+      rw [this]
+      simp only [List.map_cons, devLife, List.mem_cons, Prod.mk.injEq, and_true]
+      by_cases h : d' = d
+      · simp [h, ih]
+      · have : ¬ d = d' := fun h' => h h'.symm
+        simp only [h, ih, this, false_or, if_false]
+
 /-! ### the guard checker -/
 
 def okData (ln : Life) (ld : Nat → Life) : Eff → Prop
@@ -765,9 +790,11 @@ theorem handleBirth_cases (c : Cfg) (s : St) (ts bdseq id : Nat) (ans : Ans) (no
     (s.birthTs < ts ∧ ((s.life = .birthed ∧ s.bdseq = bdseq) ∨ ans = .ok) ∧
       handleBirth c s ts bdseq id ans now wall =
         ({ s with timer := .none, birthTs := ts, life := .birthed, bdseq := bdseq,
-                  reseq := Reseq.setNext Reseq.init 1 },
-         (if s.life = .birthed ∧ s.bdseq = bdseq then [] else [Eff.nodeBirth id true]) ++
-           (cancelTimer s).2)) := by
+                  reseq := Reseq.setNext Reseq.init 1,
+                  devices := s.devices.map fun d => (d.1, Life.stale) },
+         ((if s.life = .birthed ∧ s.bdseq = bdseq then [] else [Eff.nodeBirth id true]) ++
+           (cancelTimer s).2) ++
+           (s.devices.filter fun d => d.2 == Life.birthed).map fun d => Eff.devStale d.1)) := by
   unfold handleBirth
   by_cases h1 : ts ≤ s.birthTs
   · exact Or.inl ⟨h1, by simp [h1]⟩
@@ -793,27 +820,45 @@ theorem handleBirth_spec (c : Cfg) (s : St) (ts bdseq id : Nat) (ans : Ans) (now
     exact (Sim_inert s s [.nodeBirth id false] rfl rfl (by simp [Eff.inert])).trans
       (issueRebirth_sim c s _ now wall)
   · rw [he]
-    refine ⟨⟨setNext_init_inv, fun hs => by simp at hs, h.2.2⟩, ?_, ?_, ?_⟩
-    · rw [nodeLife_append, nodeLife_neutral _ _ (fun e he => by rw [cancelTimer_snd s e he]; rfl)]
-      split
-      · rename_i hs; exact hs.1
-      · rfl
-    · intro d
-      rw [devLife_neutral]
-      · rfl
-      · intro e he
-        rcases List.mem_append.mp he with he | he
-        · split at he
-          · simp at he
-          · simp only [List.mem_singleton] at he; subst he; rfl
-        · rw [cancelTimer_snd s e he]; rfl
-    · apply Guard_nodata
+    have hhd : ∀ e ∈ (if s.life = .birthed ∧ s.bdseq = bdseq then [] else [Eff.nodeBirth id true]) ++
+        (cancelTimer s).2, e.devNeutral = true ∧ e.isData = false := by
       intro e he
       rcases List.mem_append.mp he with he | he
       · split at he
         · simp at he
-        · simp only [List.mem_singleton] at he; subst he; rfl
-      · rw [cancelTimer_snd s e he]; rfl
+        · simp only [List.mem_singleton] at he; subst he; exact ⟨rfl, rfl⟩
+      · rw [cancelTimer_snd s e he]; exact ⟨rfl, rfl⟩
+    have htl : ∀ e ∈ (s.devices.filter fun d => d.2 == Life.birthed).map fun d => Eff.devStale d.1,
+        e.nodeNeutral = true ∧ e.isData = false := by
+      intro e he
+      obtain ⟨x, _, rfl⟩ := List.mem_map.mp he
+      exact ⟨rfl, rfl⟩
+    refine ⟨⟨setNext_init_inv, fun hs => by simp at hs, ?_⟩, ?_, ?_, ?_⟩
+    · have : (List.map Prod.fst (List.map (fun d : Nat × Life => (d.1, Life.stale)) s.devices))
+          = s.devices.map Prod.fst := by simp [List.map_map, Function.comp_def]
+      simp only [this]; exact h.2.2
+    · rw [nodeLife_append, nodeLife_neutral _ (List.map _ _) (fun e he => (htl e he).1),
+        nodeLife_append, nodeLife_neutral _ _ (fun e he => by rw [cancelTimer_snd s e he]; rfl)]
+      split
+      · rename_i hs; exact hs.1
+      · rfl
+    · intro d
+      rw [devLife_append, devLife_neutral _ _ _ (fun e he => (hhd e he).1), devLife_filter_stale]
+      simp only [devState, findDev_map_stale]
+      cases hf : findDev d s.devices with
+      | none =>
+        have : (d, Life.birthed) ∉ s.devices := fun hm =>
+          (findDev_eq_none d s.devices).mp hf (List.mem_map.mpr ⟨_, hm, rfl⟩)
+        simp [this]
+      | some l =>
+        cases l with
+        | birthed => simp [findDev_some_mem d _ s.devices hf]
+        | stale => simp
+    · apply Guard_nodata
+      intro e he
+      rcases List.mem_append.mp he with he | he
+      · exact (hhd e he).2
+      · exact (htl e he).2
 
 theorem Rel.sim {s s' : St} {es : List Eff} (h : Rel s es s') : Sim s es s' := h.2.2.2.2
 
@@ -950,8 +995,10 @@ theorem rebirth_marks (c : Cfg) (s : St) (i : In) (now wall : Nat) (hinv : HostI
     · rw [he] at h
       exfalso
       rcases List.mem_append.mp h with h | h
-      · split at h <;> simp at h
-      · have := cancelTimer_snd _ _ h; simp at this
+      · rcases List.mem_append.mp h with h | h
+        · split at h <;> simp at h
+        · have := cancelTimer_snd _ _ h; simp at this
+      · simp at h
   | ndeath bd => exact ndeath_marks c s bd now wall hinv hclock
   | offline => exact offline_marks c s now wall hinv hclock
   | rebirthReq r => exact issueRebirth_marks c s r now wall hclock hst h
@@ -1002,10 +1049,13 @@ theorem stale_no_data (c : Cfg) (s : St) (i : In) (now wall : Nat) (hst : s.life
     · rw [he]
       intro e hm
       rcases List.mem_append.mp hm with hm | hm
-      · split at hm
-        · simp at hm
-        · simp only [List.mem_singleton] at hm; subst hm; rfl
-      · exact Eff.staleish_not_data e (cancelTimer_staleish _ e hm)
+      · rcases List.mem_append.mp hm with hm | hm
+        · split at hm
+          · simp at hm
+          · simp only [List.mem_singleton] at hm; subst hm; rfl
+        · exact Eff.staleish_not_data e (cancelTimer_staleish _ e hm)
+      · obtain ⟨x, _, rfl⟩ := List.mem_map.mp hm
+        rfl
   | ndeath bd =>
     simp only [step]
     intro e hm
